@@ -140,11 +140,11 @@ def runtime_rlib():
 
 
 def typecheck_program(p, rlib, workdir, components=True):
-    """Returns list of (what, stderr) failures."""
+    """Returns list of (what, stderr) failures. Two crates per program: the module-mode module; and the component-mode module
+    together with every component source as a sibling module (each component file is self-contained)."""
     fails = []
     d = os.path.join(workdir, p.id.replace("/", "__"))
     os.makedirs(d, exist_ok=True)
-    # module mode: one crate
     wrap = os.path.join(d, "module_wrap.rs")
     with open(wrap, "w") as f:
         f.write('#![allow(warnings)]\npub mod m { include!("%s"); }\n' % p.job["module_files"][0])
@@ -154,20 +154,15 @@ def typecheck_program(p, rlib, workdir, components=True):
         fails.append(("module", r.stderr))
     if not components:
         return fails
-    # component mode: every component as its own crate, then the module
-    for cf in p.job["comp_files"]:
-        name = os.path.basename(cf)[:-3]
-        r = run(["rustc", "--edition=2024", "--crate-type=rlib", "--emit=metadata", "-o", os.path.join(d, "lib%s.rmeta" % name),
-                 "--extern", "eqlog_runtime=" + rlib, "-Awarnings", cf])
-        if r.returncode != 0:
-            fails.append(("component " + name, r.stderr))
-    wrap = os.path.join(d, "cmodule_wrap.rs")
+    wrap = os.path.join(d, "component_wrap.rs")
     with open(wrap, "w") as f:
         f.write('#![allow(warnings)]\npub mod m { include!("%s"); }\n' % p.job["cmodule_files"][0])
-    r = run(["rustc", "--edition", "2024", "--crate-type", "lib", "--emit=metadata", "-o", os.path.join(d, "libcmodule.rmeta"),
+        for i, cf in enumerate(p.job["comp_files"]):
+            f.write('pub mod component_%d { include!("%s"); }\n' % (i, cf))
+    r = run(["rustc", "--edition", "2024", "--crate-type", "lib", "--emit=metadata", "-o", os.path.join(d, "libcomponent.rmeta"),
              "--extern", "eqlog_runtime=" + rlib, "-Awarnings", wrap])
     if r.returncode != 0:
-        fails.append(("component-mode module", r.stderr))
+        fails.append(("component-mode module and components", r.stderr))
     return fails
 
 
@@ -181,12 +176,12 @@ def rule_typecheck(programs, full=True):
         with ThreadPoolExecutor(max_workers=NCPU) as ex:
             results = list(ex.map(lambda p: (p, typecheck_program(p, rlib, workdir, full or p.set != "shipped")), runnable))
         for p, fails in results:
-            n = (2 + len(p.job["comp_files"])) if (full or p.set != "shipped") else 1
+            n = (2 + len(p.job["comp_files"])) if (full or p.set != "shipped") else 1   # sources type-checked
             if not fails:
                 res.ok(n)
-                res.count("crates_typechecked", n)
+                res.count("sources_typechecked", n)
                 continue
-            res.ok(n - len(fails))
+            res.ok(max(0, n - len(fails)))
             for what, err in fails:
                 m = re.search(r"error(\[E\d+\])?: ([^\n]*)", err)
                 code = (m.group(1) or "[syntax]") if m else "[?]"
